@@ -170,7 +170,7 @@ def text_of(key: str, version: int) -> str:
 
 def observe(o: drv.Outcome) -> dict[str, Any]:
     if not o.ok:
-        return {"err": o.err_class, "msg": str(o.exc).split("\n")[0][:80]}
+        return {"err": o.err_class, "msg": drv.safe_str(o.exc).split("\n")[0][:80]}
     t = o.value
     r = drv.call(t.render)
     return {"err": None, "name": t.name, "path": str(t.path), "str": str(t), "render": r.value if r.ok else f"!{r.err_class}", "globals": dict(t.globals)}
@@ -196,7 +196,7 @@ def tag_request(env: Environment, step: dict[str, Any]) -> dict[str, Any]:
     host = env.from_string("{% " + step["tag"] + " '" + step["name"] + "' %}", globals=g)
     o = drv.call_async(host.render_async) if step["async"] else drv.call(host.render)
     if not o.ok:
-        return {"err": o.err_class, "msg": str(o.exc).split("\n")[0][:80]}
+        return {"err": o.err_class, "msg": drv.safe_str(o.exc).split("\n")[0][:80]}
     return {"err": None, "render": o.value}
 
 
@@ -302,7 +302,7 @@ def judge(ctx: core.Ctx, case: dict[str, Any]) -> None:
                 got_all = drv.call_async(_gather, env_c, reqs)
                 if not got_all.ok:
                     ctx.evaluations += 1
-                    ctx.violation(f"{kind}:gather-raises-{got_all.err_class}", f"{kind} gathered requests raised {got_all.err_class}: {str(got_all.exc)[:100]}")
+                    ctx.violation(f"{kind}:gather-raises-{got_all.err_class}", f"{kind} gathered requests raised {got_all.err_class}: {drv.safe_str(got_all.exc)[:100]}")
                     return
                 pairs = [(r, g, observe(request(env_p, r, True))) for r, g in zip(reqs, got_all.value)]
                 ctx.count("gathered_requests", len(reqs))
